@@ -9,6 +9,9 @@ GROUPS += [g for g in _c05.GROUPS if any(k in g.name for k in ("add_bin", "parse
 GROUPS.append(Group(name="C02/flag_protocol_all_cpus", unity="C02/u_protocol.cpp", entry="h_protocol", cpp_sources=["core/cpu_list.cpp"],
                     functions=[("cpu_list[]", "core/cpu_list.cpp", "data; every row checked")], unwind=90, checks=["--bounds-check", "--pointer-check"], timeout=300,
                     defines=[]))
+GROUPS.append(Group(name="C02/parse_varuint.two_pass", unity="C02/u_varuint.cpp", entry="h_varuint",
+                    functions=[("parse_varuint", "core/directives_data.cpp", "harness, 2-safety over the two passes, all 32-bit operand values"), ("add_bin_varuint", "core/add_bin.cpp", "real callee, loop closed by unwinding 8 (at most 5 groups of 7 bits)")],
+                    unwind=8, checks=["--bounds-check", "--pointer-check"], timeout=600))
 # two-pass consistency of .set symbols: "after lock() (pass 2) a .set symbol still follows its assignments in source order" is an
 # obligation of the Symbols contract (bounded scenario of C11); shared here in the thorough tier
 import C11 as _c11
